@@ -277,6 +277,83 @@ func c09Conn(srv *svc.Server, cid int, seed uint64, nframes int) (viol [][2]stri
 	return
 }
 
+// c09MixedHeaders: ONE connection that carries frames with different fixed headers: several phone numbers behind one link (a
+// gateway / forwarding platform), the 2013 and the 2019 header alternating, version bytes other than 1. Every reply must be
+// addressed and laid out like the message it answers, whatever was answered before on this connection.
+// (seed C09s1: replies encoded from a header remembered from the first answered message.)
+func c09MixedHeaders(srv *svc.Server, cid int, seed uint64) (viol [][2]string, incon bool, checked int) {
+	bad := func(sig, detail string) { viol = append(viol, [2]string{sig, detail}) }
+	r := core.NewRand(seed, "c09mixed", uint64(cid))
+	t, err := svc.Dial(srv.Addr, r.Bool(), fmt.Sprintf("%d", 4700000+cid))
+	if err != nil {
+		return nil, true, 0
+	}
+	defer t.Close()
+	type ident struct {
+		v2019 bool
+		ver   byte
+		bcd   []byte
+	}
+	ids := []ident{{t.V2019, 1, t.BCD}}
+	for k := 0; k < 3; k++ {
+		v := r.Bool()
+		n := 6
+		if v {
+			n = 10
+		}
+		ids = append(ids, ident{v, byte(1 + r.Intn(3)), svc.PhoneBCD(fmt.Sprintf("%d", 4710000+cid*10+k), n)})
+	}
+	for i := 0; i < 24; i++ {
+		id := ids[0]
+		if i > 0 {
+			id = ids[r.Intn(len(ids))]
+		}
+		mid := core.Pick(r, []uint16{0x0002, 0x0200, 0x0102, 0x0704, 0x0801})
+		var body []byte
+		switch mid {
+		case 0x0200:
+			body = c04Body(r, 2, 28)
+		case 0x0102:
+			body = []byte("auth")
+			if id.v2019 {
+				body = append([]byte{4}, append([]byte("auth"), make([]byte, 35)...)...)
+			}
+		case 0x0704:
+			body = append([]byte{0, 1, 0, 0, 28}, c04Body(r, 2, 28)...)
+		case 0x0801:
+			body = append([]byte{0x21, 0x22, byte(cid), byte(i)}, make([]byte, 32+r.Intn(8))...)
+		}
+		serial := uint16(0x200 + 5*i)
+		f := ref.Build(ref.Params{ID: mid, V2019: id.v2019, VersionByt: id.ver, BCD: id.bcd, Serial: serial, Body: body})
+		t.Conn.SetWriteDeadline(time.Now().Add(20 * time.Second))
+		if t.Write(f) != nil {
+			return viol, true, checked
+		}
+		rx, ok, to := t.Next(30 * time.Second)
+		if to {
+			return viol, true, checked
+		}
+		if !ok {
+			bad("reply|connection closed during a valid conversation", fmt.Sprintf("conn %d (several fixed headers on one connection) after %d replies", cid, i))
+			return
+		}
+		exp := ref.ExpectedReply(mid, serial, body, id.v2019, ref.PhoneString(id.bcd))
+		checked++
+		switch {
+		case rx.F == nil || exp == nil:
+			bad("reply|undecodable or unexpected reply", fmt.Sprintf("conn %d (several fixed headers) req %d", cid, i))
+		case rx.F.ID != exp.ID || (!exp.SkipBody && !bytes.Equal(rx.F.Body, exp.Body)):
+			bad("reply|reply computed from bytes of another message (echoed serial / ID / multimedia ID / auth result differ)", fmt.Sprintf("conn %d (several fixed headers) req %d (%04x serial %d): got %04x %x want %04x %x", cid, i, mid, serial, rx.F.ID, rx.F.Body, exp.ID, exp.Body))
+		case !bytes.Equal(rx.F.BCD, id.bcd) || rx.F.V2019 != id.v2019: // (the version byte is not compared: the server always writes 1)
+			bad("reply|reply addressed with another phone number", fmt.Sprintf("conn %d req %d: the message had phone %x 2019=%v version byte %d, its reply has phone %x 2019=%v version byte %d (several fixed headers on one connection)", cid, i, id.bcd, id.v2019, id.ver, rx.F.BCD, rx.F.V2019, rx.F.VersionByt))
+		}
+		if len(viol) > 2 {
+			return
+		}
+	}
+	return
+}
+
 // c09Abrupt: the connection ends while messages are still queued for the writer (the write callback is slowed down for this
 // terminal): everything the read callback was handed must be unchanged after the teardown.
 func c09Abrupt(srv *svc.Server, cid int, seed uint64) (viol [][2]string, incon bool, checked int) {
@@ -396,6 +473,21 @@ func c09Suite(c *core.Collector, seed uint64, batch int, conns, nframes int) {
 				c.Violate(v[0], v[1], wit)
 			}
 		}()
+	}
+	for i := 0; i < conns; i++ {
+		wg.Add(1)
+		go func(i int) {
+			defer wg.Done()
+			viol, incon, n := c09MixedHeaders(srv, batch*1000+700+i, seed)
+			c.Evals(int64(n))
+			c.Count("replies_on_connections_with_several_fixed_headers", int64(n))
+			if incon {
+				c.Inconclusive()
+			}
+			for _, v := range viol {
+				c.Violate(v[0], v[1], nil)
+			}
+		}(i)
 	}
 	for i := 0; i < 4*conns; i++ {
 		wg.Add(1)
